@@ -215,6 +215,9 @@ pub struct Job {
     pub flush_every: Option<usize>,
     #[serde(default)]
     pub alloc_cap: Option<usize>,
+    /// decode: call read() again after end of stream / after an error and report what happens
+    #[serde(default)]
+    pub probe: bool,
 }
 
 #[derive(Clone, Default)]
@@ -314,7 +317,7 @@ struct DecOut {
 /// Consecutive `Interrupted` results of the reader under test before the case is reported as stuck.
 const INTR_STUCK: u64 = 10_000;
 
-fn drive<R: Read>(r: &mut R, bufs: &[usize], limit: u64, acc: &mut OutAcc, buf: &mut [u8]) -> DecOut {
+fn drive<R: Read>(r: &mut R, bufs: &[usize], limit: u64, acc: &mut OutAcc, buf: &mut [u8], probe: bool) -> DecOut {
     let mut o = DecOut { outcome: "ok", err: None, stage: "read", api_reads: 0, intr_returns: 0, reads_after_err: 0,
                          ok_after_err: false, eof_then_data: false, unit_count: None };
     let mut i = 0usize;
@@ -325,11 +328,13 @@ fn drive<R: Read>(r: &mut R, bufs: &[usize], limit: u64, acc: &mut OutAcc, buf: 
         o.api_reads += 1;
         match r.read(&mut buf[..n]) {
             Ok(0) => {
-                // a reader that reported end of stream must stay there
-                let again = r.read(&mut buf[..n]);
-                if let Ok(k) = again {
-                    if k > 0 {
-                        o.eof_then_data = true;
+                // a reader that reported end of stream must stay there (probe only when asked: the extra
+                // call would otherwise consume a scripted fault)
+                if probe {
+                    if let Ok(k) = r.read(&mut buf[..n]) {
+                        if k > 0 {
+                            o.eof_then_data = true;
+                        }
                     }
                 }
                 return o;
@@ -354,16 +359,14 @@ fn drive<R: Read>(r: &mut R, bufs: &[usize], limit: u64, acc: &mut OutAcc, buf: 
             Err(e) => {
                 o.outcome = "err";
                 o.err = Some((kind_name(e.kind()), e.to_string()));
-                // what does the reader do when it is called again after an error? (never success with data
-                // that continues the stream as if nothing happened is demanded only by the oracle in python)
-                for _ in 0..2 {
-                    o.reads_after_err += 1;
-                    match r.read(&mut buf[..n]) {
-                        Ok(k) if k > 0 => {
-                            o.ok_after_err = true;
-                            acc.push(&buf[..k]);
+                if probe {
+                    for _ in 0..2 {
+                        o.reads_after_err += 1;
+                        if let Ok(k) = r.read(&mut buf[..n]) {
+                            if k > 0 {
+                                o.ok_after_err = true;
+                            }
                         }
-                        _ => {}
                     }
                 }
                 return o;
@@ -377,12 +380,12 @@ fn ctor_err(e: io::Error) -> DecOut {
              reads_after_err: 0, ok_after_err: false, eof_then_data: false, unit_count: None }
 }
 
-fn run_decoder(d: &DecSpec, srcs: Vec<FaultSource>, bufs: &[usize], limit: u64, acc: &mut OutAcc, buf: &mut [u8]) -> DecOut {
+fn run_decoder(d: &DecSpec, srcs: Vec<FaultSource>, bufs: &[usize], limit: u64, acc: &mut OutAcc, buf: &mut [u8], probe: bool) -> DecOut {
     let mut srcs = srcs;
     let src = srcs.remove(0);
     match d.kind.as_str() {
         "lzma" => match LZMAReader::new_mem_limit(src, d.mem_limit_kb.unwrap_or(u32::MAX), None) {
-            Ok(mut r) => drive(&mut r, bufs, limit, acc, buf),
+            Ok(mut r) => drive(&mut r, bufs, limit, acc, buf, probe),
             Err(e) => ctor_err(e),
         },
         "lzma_raw" => {
@@ -391,31 +394,31 @@ fn run_decoder(d: &DecSpec, srcs: Vec<FaultSource>, bufs: &[usize], limit: u64, 
                 None => LZMAReader::new_with_props(src, d.usize.unwrap_or(u64::MAX), d.props, d.dict, None),
             };
             match r {
-                Ok(mut r) => drive(&mut r, bufs, limit, acc, buf),
+                Ok(mut r) => drive(&mut r, bufs, limit, acc, buf, probe),
                 Err(e) => ctor_err(e),
             }
         }
         "lzma2" => {
             let mut r = LZMA2Reader::new(src, d.dict, None);
-            drive(&mut r, bufs, limit, acc, buf)
+            drive(&mut r, bufs, limit, acc, buf, probe)
         }
         "lzma2_mt" => {
             let mut r = LZMA2ReaderMT::new(src, d.dict, None, d.workers);
-            let mut o = drive(&mut r, bufs, limit, acc, buf);
+            let mut o = drive(&mut r, bufs, limit, acc, buf, probe);
             o.unit_count = Some(r.chunk_count());
             o
         }
         "xz" => {
             let mut r = XZReader::new(src, d.multi);
-            drive(&mut r, bufs, limit, acc, buf)
+            drive(&mut r, bufs, limit, acc, buf, probe)
         }
         "lzip" => match LZIPReader::new(src) {
-            Ok(mut r) => drive(&mut r, bufs, limit, acc, buf),
+            Ok(mut r) => drive(&mut r, bufs, limit, acc, buf, probe),
             Err(e) => ctor_err(e),
         },
         "lzip_mt" => match LZIPReaderMT::new(src, d.workers) {
             Ok(mut r) => {
-                let mut o = drive(&mut r, bufs, limit, acc, buf);
+                let mut o = drive(&mut r, bufs, limit, acc, buf, probe);
                 o.unit_count = Some(r.member_count() as u64);
                 o
             }
@@ -423,7 +426,7 @@ fn run_decoder(d: &DecSpec, srcs: Vec<FaultSource>, bufs: &[usize], limit: u64, 
         },
         "delta" => {
             let mut r = DeltaReader::new(src, d.distance);
-            drive(&mut r, bufs, limit, acc, buf)
+            drive(&mut r, bufs, limit, acc, buf, probe)
         }
         "bcj" => {
             let s = d.start_pos;
@@ -437,13 +440,13 @@ fn run_decoder(d: &DecSpec, srcs: Vec<FaultSource>, bufs: &[usize], limit: u64, 
                 "ia64" => BCJReader::new_ia64(src, s),
                 _ => BCJReader::new_riscv(src, s),
             };
-            drive(&mut r, bufs, limit, acc, buf)
+            drive(&mut r, bufs, limit, acc, buf, probe)
         }
         "bcj2" => {
             let mut v = vec![src];
             v.extend(srcs);
             let mut r = BCJ2Reader::new(v, d.bcj2_size);
-            drive(&mut r, bufs, limit, acc, buf)
+            drive(&mut r, bufs, limit, acc, buf, probe)
         }
         _ => DecOut { outcome: "badjob", err: Some(("?".into(), format!("unknown decoder {}", d.kind))), stage: "new",
                       api_reads: 0, intr_returns: 0, reads_after_err: 0, ok_after_err: false, eof_then_data: false, unit_count: None },
@@ -510,7 +513,7 @@ fn decode_case(job: &Job, bases: &Bases) -> Value {
     }
     let a0 = alloc::begin();
     let t0 = Instant::now();
-    let r = std::panic::catch_unwind(std::panic::AssertUnwindSafe(|| run_decoder(&job.dec, srcs, &job.bufs, limit, &mut acc, &mut buf)));
+    let r = std::panic::catch_unwind(std::panic::AssertUnwindSafe(|| run_decoder(&job.dec, srcs, &job.bufs, limit, &mut acc, &mut buf, job.probe)));
     let wall = t0.elapsed().as_secs_f64();
     let peak = alloc::peak_since(a0);
     let largest = alloc::LARGEST.load(Ordering::Relaxed);
